@@ -109,6 +109,26 @@ def main():
         finally:
             shutil.rmtree(d, ignore_errors=True)
         res["states"] = r
+    if "cwd_sigs" in req:
+        # signatures of the same absolute paths computed from different working directories
+        d = Path(tempfile.mkdtemp(prefix="verif_c12w_"))
+        try:
+            (d / "sub" / "deep").mkdir(parents=True)
+            rels = ["a.txt", "sub/a.txt", "sub/deep/a.txt", "b.txt"]
+            out_ = {}
+            for cwd in [d, d / "sub", d / "sub" / "deep", Path("/")]:
+                os.chdir(cwd)
+                row = {}
+                for r_ in rels:
+                    p_ = d / r_
+                    row[r_] = [PathNode(path=p_).signature, PickleNode(path=p_).signature,
+                               Task(base_name="task_x", path=p_.with_suffix(".py"), function=lambda: None).signature,
+                               DirectoryNode(root_dir=p_.parent, pattern="*.txt").signature]
+                out_[str(cwd.relative_to(d)) if cwd != Path("/") else "/"] = row
+            res["cwd_sigs"] = out_
+        finally:
+            os.chdir("/")
+            shutil.rmtree(d, ignore_errors=True)
     if "collect" in req:
         res["collect"] = collect_cases(req["collect"])
     json.dump(res, sys.stdout)
